@@ -285,6 +285,14 @@ class Run:
             if f is None:
                 raise Unsupported(f"dangling oid {oid}")
             r = f()
+            sym = getattr(r, "sym", None)
+            if sym and hasattr(r, "fields"):
+                # an object of a map that a callee (used through its contract) may have modified: first touched after that call, its fields are the
+                # post-call ones (fresh), not the entry values the template names
+                for (prefix, tag) in reversed(getattr(self, "havoc_prefixes", [])):
+                    if sym.startswith(prefix + "[") and sym.endswith("]"):
+                        r.sym = f"{sym}@{tag}"
+                        break
             self.heap[oid] = r
         return r
 
